@@ -1166,7 +1166,11 @@ func (r *Resolver) answer(ctx context.Context, req, resp *dns.Msg, parentDS []dn
 			if terminalNODATA {
 				middleware.PropagateValidatedNegativeProofResponse(ctx, targetMsg, resp)
 			}
-			resp.Ns = append(resp.Ns, targetMsg.Ns...)
+			// As in the NXDOMAIN branch above: carry the target's proof and
+			// nothing of the outer response's authority/additional padding.
+			targetAuthority := append([]dns.RR(nil), targetMsg.Ns...)
+			resp = r.clearAdditional(req, resp, extra...)
+			resp.Ns = targetAuthority
 			return resp, nil
 		}
 	}
